@@ -9,8 +9,9 @@
 (* evaluator / node functional of the family select the physical node according to the orientation of the entity  *)
 (* (Lagrange-3: kernel/space/lagrange3/evaluator.hpp).  What the property demands is therefore stated on the       *)
 (* FUNCTIONALS: OneIndexPerFunctional - two (cell, local dof) pairs carry the same global index iff they denote    *)
-(* the same functional; the functional of a pair is observed by the harness as a signature (the functional         *)
-(* applied to a fixed list of probe polynomials, as scaled integers).                                              *)
+(* the same functional; functionals live on ENTITIES (Space::DofAssignment + NodeFunctional), so the harness dumps  *)
+(* the entity-wise assignment A next to the cell-wise mapping G and the specification relates the two; that the     *)
+(* basis function j of a cell is dual to the functional its index is assigned to is the Reproduce/Dual property.    *)
 EXTENDS MeshTopo, RefElement
 
 \* T: topology record of MeshTopo ([n, idx]); sig: RefElement!Sig
@@ -35,8 +36,18 @@ OneIndexPerEntityDof(G, T, sig, fam, dim) ==
   LET lay == Layout(sig, fam, dim)
       pairs == {<<G[c][j], Functional(T, dim, c, lay[j])>> : c \in 1..Len(G), j \in 1..Len(lay)}
   IN Cardinality(pairs) = Cardinality({p[1] : p \in pairs}) /\ Cardinality(pairs) = Cardinality({p[2] : p \in pairs})
-\* same index <=> same observed functional signature; Sg[c][j] = signature (tuple of integers) of local dof j on cell c
-OneIndexPerFunctional(G, Sg) ==
-  LET pairs == {<<G[c][j], Sg[c][j]>> : c \in 1..Len(G), j \in 1..Len(G[1])}
-  IN Cardinality(pairs) = Cardinality({p[1] : p \in pairs}) /\ Cardinality(pairs) = Cardinality({p[2] : p \in pairs})
+\* ---- the entity-wise side: dof assignment A (A[d+1][E+1][m+1] = index of the m-th functional of the d-entity E) -----------------------
+\* the assignment the contract demands: the m-th functional of the d-entity E has index Off(d) + E*sig[d] + m
+AssignSpec(T, sig, dim) ==
+  [d \in 1..(dim + 1) |-> [E \in 1..N(T, d - 1) |-> [m \in 1..sig[d] |-> DofOffset(T, sig, d - 1) + (E - 1) * sig[d] + (m - 1)]]]
+AssignShapeOK(A, T, sig, dim) ==
+  Len(A) = dim + 1 /\ \A d \in 1..(dim + 1) : Len(A[d]) = N(T, d - 1) /\ \A E \in 1..Len(A[d]) : Len(A[d][E]) = sig[d]
+\* the cell-wise mapping sends local dof <<d, k, m>> of cell c to the index ASSIGNED to functional m of that entity, and distinct
+\* functionals have distinct indices: one index per shared functional, whatever the orientation of the entity relative to the cell
+OneIndexPerFunctional(G, A, T, sig, fam, dim) ==
+  LET lay == Layout(sig, fam, dim) IN
+  /\ \A c \in 1..Len(G) : \A j \in 1..Len(lay) :
+       G[c][j] = A[lay[j][1] + 1][EntityOf(T, dim, c, lay[j][1], lay[j][2]) + 1][lay[j][3] + 1]
+  /\ LET all == UNION {UNION {{<<d, E, m, A[d][E][m]>> : m \in 1..Len(A[d][E])} : E \in 1..Len(A[d])} : d \in 1..Len(A)}
+     IN Cardinality({t[4] : t \in all}) = Cardinality(all)
 =============================================================================
